@@ -381,16 +381,14 @@ def dot_orientation(prog, body):
     return None, render(ret)[:100]
 
 
-def dot_vector_gate(body):
-    """truth table over (self.rows == 1, self.cols == 1, other.rows == 1, other.cols == 1): a non-panicking return must be
-    reachable exactly when each operand has a unit dimension. Boolean locals are propagated (the tests may be combined through
-    named flags, `let a = r == 1 || c == 1; if !(a && b) { panic }`). returns (n_tests, bad[list of str])"""
-    import itertools
+def _bool_eval(prog, body, assign, depth=0):
+    """propagate Boolean locals through `body` under an assignment of the four unit-dimension atoms
+    (self.rows == 1, self.cols == 1, other.rows == 1, other.cols == 1; None = unknown).
+    returns (reachable blocks, set of values of the return place at the return blocks; None in the set = unknown)"""
     res = Resolver(body)
     atoms = {("rows", 1): 0, ("cols", 1): 1, ("rows", 2): 2, ("cols", 2): 3}
 
     def atom_test(term):
-        """(atom index, relation) for `dim == 1` / `dim != 1` terms"""
         c = guards._cond(res, term) if term[0] in ("bin", "call", "un") else None
         if not c:
             return None
@@ -399,74 +397,95 @@ def dot_vector_gate(body):
             if d and d[0] in ("rows", "cols") and d[1][0] == "arg" and (d[0], d[1][1]) in atoms and R == ("int", 1) and rel in ("==", "!="):
                 return atoms[(d[0], d[1][1])], rel
         return None
+    state = {0: {}}
+    work = [0]
+    rets = set()
+    while work:
+        bb = work.pop()
+        blk = body.blocks[bb]
+        if blk["cleanup"]:
+            continue
+        env = dict(state[bb])
+        for st in blk["stmts"]:
+            if st["k"] != "assign" or st["p"]["pr"]:
+                continue
+            l, r = st["p"]["l"], st["r"]
+            val = None
+            if r["k"] == "use":
+                o = r["o"]
+                if o["k"] == "const" and o.get("ty") == "bool":
+                    val = False if "false" in str(o).lower() else (True if "true" in str(o).lower() else None)
+                elif o["k"] in ("copy", "move") and not o["p"]["pr"] and o["p"]["l"] in env:
+                    val = env[o["p"]["l"]]
+            elif r["k"] == "bin":
+                at = atom_test(res.rvalue(r, 0, ()))
+                if at and assign[at[0]] is not None:
+                    val = assign[at[0]] if at[1] == "==" else (not assign[at[0]])
+            elif r["k"] == "un" and r.get("op") == "Not":
+                o = r["o"]
+                if o["k"] in ("copy", "move") and not o["p"]["pr"] and o["p"]["l"] in env:
+                    val = not env[o["p"]["l"]]
+            if val is None:
+                env.pop(l, None)
+            else:
+                env[l] = val
+        t = blk["term"]
+        if t["k"] == "return":
+            rets.add(env.get(0))
+        succ = []
+        if t["k"] == "switch" and t["o"]["k"] in ("copy", "move") and not t["o"]["p"]["pr"] and t["o"]["p"]["l"] in env \
+                and len(t["targets"]) == 1 and t["targets"][0][0] == "0":
+            succ = [t["otherwise"]] if env[t["o"]["p"]["l"]] else [t["targets"][0][1]]
+        else:
+            succ = [x for x in body.succs[bb]]
+            if t["k"] == "call" and t.get("d") and not t["d"]["pr"]:
+                env.pop(t["d"]["l"], None)
+                # a local Boolean helper applied to one of the two operands: `is_vector(self)`
+                f = t.get("f")
+                cal = None
+                if f and prog is not None and depth < 2:
+                    for key in (f.get("resolved"), f.get("path")):
+                        if key and key in prog.bodies:
+                            cal = prog.bodies[key]
+                if cal is not None and cal is not body and cal.local_ty(0) == "bool" and len(t["args"]) >= 1:
+                    sub = [None, None, None, None]
+                    for j, a in enumerate(t["args"][:2]):
+                        at_ = res.operand(a)
+                        if at_[0] == "arg" and at_[1] in (1, 2):
+                            src = (0, 1) if at_[1] == 1 else (2, 3)
+                            sub[2 * j], sub[2 * j + 1] = assign[src[0]], assign[src[1]]
+                    _, rv = _bool_eval(prog, cal, sub, depth + 1)
+                    if len(rv) == 1 and None not in rv:
+                        env[t["d"]["l"]] = next(iter(rv))
+        for sx in succ:
+            if body.blocks[sx]["cleanup"]:
+                continue
+            if sx not in state:
+                state[sx] = dict(env)
+                work.append(sx)
+            else:
+                merged = {k: v for k, v in state[sx].items() if env.get(k) == v}
+                if merged != state[sx]:
+                    state[sx] = merged
+                    work.append(sx)
+    return set(state), rets
+
+
+def dot_vector_gate(body, prog=None):
+    """truth table over (self.rows == 1, self.cols == 1, other.rows == 1, other.cols == 1): a non-panicking return must be
+    reachable exactly when each operand has a unit dimension. Boolean locals and local Boolean helpers are propagated (the
+    tests may be combined through named flags or `fn is_vector(m) -> bool`). returns (n_tests, bad[list of str])"""
+    import itertools
+    res = Resolver(body)
     n_tests = 0
     for i, j, st in body.stmts():
         if st["k"] == "assign" and st["r"]["k"] == "bin" and not st["p"]["pr"]:
-            if atom_test(res.rvalue(st["r"], 0, ())):
+            c = guards._cond(res, res.rvalue(st["r"], 0, ()))
+            if c and (c[2] == ("int", 1) or c[0] == ("int", 1)) and (dim_of(c[0]) or dim_of(c[2])):
                 n_tests += 1
-
-    def run(assign):
-        """blocks reachable from entry under the assignment, following known boolean locals"""
-        state = {0: {}}
-        work = [0]
-        seen_states = {}
-        while work:
-            bb = work.pop()
-            blk = body.blocks[bb]
-            if blk["cleanup"]:
-                continue
-            env = dict(state[bb])
-            for st in blk["stmts"]:
-                if st["k"] != "assign" or st["p"]["pr"]:
-                    continue
-                l, r = st["p"]["l"], st["r"]
-                val = None
-                if r["k"] == "use":
-                    o = r["o"]
-                    if o["k"] == "const" and o.get("ty") == "bool":
-                        val = "true" in str(o.get("v", o.get("c", ""))).lower() or str(o.get("v", "")) == "1"
-                        if "false" in str(o).lower():
-                            val = False
-                        elif "true" in str(o).lower():
-                            val = True
-                    elif o["k"] in ("copy", "move") and not o["p"]["pr"] and o["p"]["l"] in env:
-                        val = env[o["p"]["l"]]
-                elif r["k"] == "bin":
-                    at = atom_test(res.rvalue(r, 0, ()))
-                    if at:
-                        val = assign[at[0]] if at[1] == "==" else (not assign[at[0]])
-                elif r["k"] == "un" and r.get("op") == "Not":
-                    o = r["o"]
-                    if o["k"] in ("copy", "move") and not o["p"]["pr"] and o["p"]["l"] in env:
-                        val = not env[o["p"]["l"]]
-                if val is None:
-                    env.pop(l, None)
-                else:
-                    env[l] = val
-            t = blk["term"]
-            succ = []
-            if t["k"] == "switch" and t["o"]["k"] in ("copy", "move") and not t["o"]["p"]["pr"] and t["o"]["p"]["l"] in env \
-                    and len(t["targets"]) == 1 and t["targets"][0][0] == "0":
-                succ = [t["otherwise"]] if env[t["o"]["p"]["l"]] else [t["targets"][0][1]]
-            else:
-                succ = [x for x in body.succs[bb]]
-                if t["k"] == "call" and t.get("d") and not t["d"]["pr"]:
-                    env.pop(t["d"]["l"], None)
-            for sx in succ:
-                if body.blocks[sx]["cleanup"]:
-                    continue
-                if sx not in state:
-                    state[sx] = dict(env)
-                    work.append(sx)
-                else:
-                    merged = {k: v for k, v in state[sx].items() if env.get(k) == v}
-                    if merged != state[sx]:
-                        state[sx] = merged
-                        work.append(sx)
-        return set(state)
     bad = []
     for assign in itertools.product((False, True), repeat=4):
-        reach = run(assign)
+        reach, _ = _bool_eval(prog, body, list(assign))
         can_return = any(r in reach for r in body.returns)
         must_reject = not ((assign[0] or assign[1]) and (assign[2] or assign[3]))
         shape = lambda r1, c1: f"{'1' if r1 else 'm'}x{'1' if c1 else 'n'}"
